@@ -404,45 +404,8 @@ def array(ctx):
     fn = ctx.fn(PA, 'build_disl_array')
     loc = PA + '::build_disl_array'
     aliases = module_aliases(ctx.mod(PA))
-    # tilt
-    tilt = [s for s in fn.body if isinstance(s, ast.If) and 'burgers.dot(m)' in norm(s.test)]
-    ctx.need(len(tilt) == 1, 'build_disl_array: the box tilt by b/2 is not recognisable')
-    Vv = symarray('v', (3, 3), real=True)
+    # (the cell tilt, the deletion count and the refusals are decided by array_model on the model crystal)
     bb = symarray('b', (3,), real=True)
-    for sign, want in ((True, Vv[1] - bb / 2), (False, Vv[1] + bb / 2)):
-        ev = SymEval(aliases)
-        ev.decide = lambda text, v, p, s=sign: s
-
-        class Bv(PyStub):
-            def dot(self, m):
-                return sp.Symbol('b_dot_m', real=True)
-
-            def __truediv__(self, k):
-                return bb / k
-        q = ev.block([tilt[0]], [Path({'burgers': Bv(), 'm': 'M', 'newvects': Vv.copy(), 'motionindex': 1})])
-        nv = q[0].env['newvects']
-        ok = equal(nv[1], want, deep=False) and equal(nv[0], Vv[0], deep=False) and equal(nv[2], Vv[2], deep=False)
-        ctx.ob('ARRAY', loc, 'b·m %s 0: b/2 is %s the in-plane box vector along the motion direction (either way the cell gets shorter by |b·m|/2); the other vectors are kept' % ('>' if sign else '<=', 'subtracted from' if sign else 'added to'), bool(ok), node=tilt[0], key='tilt %s' % sign)
-    t = norm(fn).replace(' ', '')
-    # refusals
-    for tag, frag_test, envs in (('deleted-atom count differs from the count implied by the edge component', 'found != expected', [({'found': 5, 'expected': 4}, True), ({'found': 3, 'expected': 4}, True), ({'found': 4, 'expected': 4}, False)]),):
-        st = [s for s in fn.body if isinstance(s, ast.If) and sorted(n_.id for n_ in ast.walk(s.test) if isinstance(n_, ast.Name)) == ['expected', 'found']]
-        ctx.need(len(st) == 1, 'build_disl_array: the found/expected comparison is not recognisable')
-        oks = []
-        for env, must_raise in envs:
-            q = SymEval(aliases).block([st[0]], [Path(dict(env))])
-            oks.append(all(p.done == 'raise' for p in q) == must_raise)
-        ctx.ob('ARRAY', loc, 'refused: %s (more or fewer)' % tag, all(oks), 'raise on (5,4) (3,4) (4,4): %s' % oks, node=st[0], key='found')
-    st = [s for s in fn.body if isinstance(s, ast.If) and 'round(expected)' in norm(s.test)]
-    ctx.need(len(st) == 1, 'build_disl_array: the integer test on the expected count is not recognisable')
-    oks = []
-    for val, must_raise in ((sp.Rational(9, 2), True), (sp.Integer(4), False)):
-        ev = SymEval(aliases)
-        ev.np_override = {'numpy.isclose': lambda a, b, **k: bool(sp.Abs(sp.sympify(a) - b) < sp.Rational(1, 10 ** 6))}
-        ev.globals = {'round': lambda x: sp.floor(x + sp.Rational(1, 2)), 'int': lambda x: x}
-        q = ev.block([st[0]], [Path({'expected': val})])
-        oks.append(all(p.done == 'raise' for p in q) == must_raise)
-    ctx.ob('ARRAY', loc, 'refused: a Burgers vector whose edge component does not remove a whole number of atoms', all(oks), str(oks), node=st[0], key='integer')
     # linear displacement
     lfn = ctx.fn(PA, 'linear_displacement')
     x, y, L = sp.symbols('x y L', positive=True)
